@@ -244,6 +244,8 @@ pub fn run_c08(tier: Tier) -> Report {
         }
     }
     shapes.extend([(352, 288), (1, 1000), (1000, 1), (2, 257), (257, 2), (5, 33)]);
+    // very wide / very tall pictures (16-bit Sorenson sizes)
+    shapes.extend([(1028, 2), (1030, 3), (2049, 2), (4100, 3), (3, 4100), (2, 65535), (65535, 2), (1023, 5), (1024, 4), (704, 576)]);
     let nt = shapes.iter().filter(|(w, h)| w % 4 != 0 || h % 2 != 0).count() as u64;
     shapes.par_iter().for_each(|&(w, h)| {
         for kind in 0..8 {
